@@ -7,5 +7,6 @@ for id in $IDS; do for s in $SEEDS; do
   out=$(VERIF_SEED=$s ./check $id --tier $TIER 2>&1 | grep -v conda)
   rc=$?
   echo "$out" | tail -1
-  echo "$out" | grep -E "VIOLATION|mechanism|INCONCLUSIVE" | cut -c1-600 | head -6
+  echo "$out" | grep -E "INCONCLUSIVE" | cut -c1-300 | head -2
+  echo "$out" | grep -E "VIOLATION|mechanism|KNOWN-FINDING" | cut -c1-400 | head -6
 done; done
